@@ -6,7 +6,8 @@ EXPLANATION = ("Real newHarness (boundary listener flows, interrupting action tr
                "exception paths; the scheduler is symbolic within each phase.")
 ASSUMPTIONS = ["tracer replaced by the synchronous stub (contract established by C09)",
                "one boundary event on a task host; sub-process hosts, two boundary events, repeated events and races between answer and event are outside the registered bounds",
-               "the driver waits for quiescence between delivering the event and answering the task"]
+               "the driver waits for quiescence between delivering the event and answering the task",
+               "reduced scenarios: the host activity is a stand-in that answers at once (the harness around it, its boundary listeners and the flows are the real code)"]
 
 
 def sc(entry, name, bounds, eo, tiers=("quick", "thorough"), K=120):
@@ -20,6 +21,10 @@ SCENARIOS = [
     sc("VerifC10_Interrupting_EventThenAnswer", "C10 interrupting: event while waiting, then answer", "interrupting boundary event; event, then answer",
        ["a matching event while the activity waits makes the exception flow continue exactly once",
         "after an interrupting boundary event the normal flow never continues, even if the task is answered afterwards"]),
+    dict(sc("VerifC10_InstantAnswerThenEvent", "C10 activity completes at once, then event (stand-in activity)", "host activity is a stand-in that answers at once; then a matching event",
+            ["once the activity has completed its boundary events no longer react"]), native=False),
+    dict(sc("VerifC10_InstantErrAnswerThenEvent", "C10 activity fails at once, then event (stand-in activity)", "host activity is a stand-in that answers at once with an error that is not retried; then a matching event",
+            ["once the activity has completed its boundary events no longer react"]), native=False),
     sc("VerifC10_AnswerThenEvent", "C10 answer, then event", "task answered successfully, then a matching event",
        ["once the activity has completed its boundary events no longer react"], tiers=("thorough",), K=160),
     sc("VerifC10_ErrAnswerThenEvent", "C10 error answer, then event", "task answered with an error that is not retried, then a matching event",
